@@ -147,7 +147,56 @@ func runNeg(c *NegCase) *sim.Outcome {
 		}
 		return true
 	}
-	switch c.Form % 8 {
+	switch c.Form % 9 {
+	case 8:
+		// both allow versions 2 and 3; a full query has started a version 3 exchange; a second query that offers version
+		// 2 only arrives at either party after k messages. Whether it is ignored (too soon after the first) or answered,
+		// the parties must end up in one session of a version both allow, and text must flow
+		if c.PolA&3 != 3 || c.PolB&3 != 3 || c.PolA&sim.PolRequire != 0 || c.PolB&sim.PolRequire != 0 {
+			o.Discard = true
+			return o
+		}
+		w.Query(0)
+		for k := 0; k < c.Pos%6 && w.Pending() > 0; k++ {
+			d := k % 2
+			if len(w.Q[d]) == 0 {
+				d = 1 - d
+			}
+			w.Deliver(d, 0)
+		}
+		late := []string{"?OTRv2?", "?OTR?v2?", "?OTRv2"}[c.V%3]
+		w.Receive(c.V/3%2, []byte(late))
+		w.Flush(200)
+		var committed [2]bool
+		for _, wr := range w.Log {
+			if t, _ := typeOf(wr.Data); t == ref.TypeDHCommit {
+				committed[wr.From] = true
+			}
+		}
+		if committed[0] && committed[1] && (!a.C.IsEncrypted() || !b.C.IsEncrypted()) {
+			// both sides ended up sending a D-H Commit: the crossing-commits situation of the open finding C07/dhcommit-collision
+			o.Discard = true
+			o.Class("crossing-commits")
+			return o
+		}
+		if !a.C.IsEncrypted() || !b.C.IsEncrypted() {
+			return o.Fail("C16/no-session", "a second query (%q) reached %s after %d messages of a version 3 exchange; the network is quiet and A encrypted=%v, B encrypted=%v", late, w.P[c.V/3%2].Name, c.Pos%6, a.C.IsEncrypted(), b.C.IsEncrypted())
+		}
+		for d := 0; d < 2; d++ {
+			t := []byte(fmt.Sprintf("after the late query %d", d))
+			w.Send(d, t)
+			got := false
+			for _, c2 := range w.Flush(50) {
+				if c2.Who == 1-d && bytes.Equal(c2.Plain, t) {
+					got = true
+				}
+			}
+			if !got {
+				return o.Fail("C16/no-session", "after a late query for another version both sides report encrypted but a text from %s did not arrive", w.P[d].Name)
+			}
+		}
+		o.Class(fmt.Sprintf("late-query-at-step-%d", c.Pos%6))
+		o.NonTrivial = true
 	case 7:
 		// a message of a forbidden version arrives while an exchange is under way or a session exists
 		v := best(allowedSet(c.PolA), c.PolB)
@@ -168,7 +217,17 @@ func runNeg(c *NegCase) *sim.Outcome {
 		rnd := func(n int) []byte { x := make([]byte, n); rr.Read(x); return append([]byte{}, x...) }
 		var in []byte
 		what := ""
-		if c.V%2 == 0 {
+		if c.V%4 >= 2 {
+			// a one-piece fragment in the framing of the forbidden version, carrying a text
+			st, rt := uint32(0x4711), uint32(0)
+			if b.C.IsEncrypted() {
+				st, rt = b.C.GetTheirInstanceTag(), b.C.GetOurInstanceTag()
+			}
+			in, what = ref.MakeFragment(u == 3, st, rt, 1, 1, []byte("text inside a fragment")), fmt.Sprintf("a fragment in version %d framing", u)
+			if c.V%4 == 3 {
+				in = ref.MakeFragment(u == 3, st, rt, 1, 1, []byte("?OTRv"+fmt.Sprint(v)+"?"))
+			}
+		} else if c.V%2 == 0 {
 			in, what = ref.NewParty(uint16(u), refKey(1), rnd).StartAKE(), fmt.Sprintf("a genuine version %d D-H Commit", u)
 		} else {
 			// the layout of the version in use, labelled with the forbidden one
@@ -396,7 +455,7 @@ var craftedQueries = []string{"?OTRv2?", "?OTRv3?", "?OTRv23?", "?OTRv32?", "?OT
 func TestProp_C16_Negotiate(t *testing.T) {
 	defer sim.MarkCompleted("C16negotiate", false)
 	rapid.Check(t, func(rt *rapid.T) {
-		c := &NegCase{PolA: genPol(rt, "polA"), PolB: genPol(rt, "polB"), Form: rapid.IntRange(0, 7).Draw(rt, "form")}
+		c := &NegCase{PolA: genPol(rt, "polA"), PolB: genPol(rt, "polB"), Form: rapid.IntRange(0, 8).Draw(rt, "form")}
 		switch c.Form {
 		case 6:
 			// lengths around allocation size classes matter for buffer reuse
@@ -434,7 +493,11 @@ func TestProp_C16_Negotiate(t *testing.T) {
 			c.PolA = c.PolA&^sim.PolRequire | only | rapid.SampledFrom([]int{0, 3}).Draw(rt, "also")
 			c.PolB &^= sim.PolRequire
 			c.Pos = rapid.IntRange(0, 5).Draw(rt, "step")
-			c.V = rapid.IntRange(0, 1).Draw(rt, "label")
+			c.V = rapid.IntRange(0, 3).Draw(rt, "label")
+		case 8:
+			c.PolA, c.PolB = c.PolA&^sim.PolRequire|3, c.PolB&^sim.PolRequire|3
+			c.Pos = rapid.IntRange(0, 5).Draw(rt, "step")
+			c.V = rapid.IntRange(0, 5).Draw(rt, "late")
 		case 4:
 			if rapid.Bool().Draw(rt, "otrlike") {
 				c.Text = []byte(rapid.SampledFrom([]string{"?OTRv23?", "?OTR:AAMDabc.", "?OTR Error: x", "?OTR|1|2,1,1,x,", "hi" + string(ref.WSBase) + string(ref.WSV3), "?OTR"}).Draw(rt, "text"))
@@ -482,13 +545,24 @@ func TestProp_C16_Policies(t *testing.T) {
 	for _, only := range []int{sim.PolV2, sim.PolV3} {
 		for _, also := range []int{0, 3} {
 			for step := 0; step < 6; step++ {
-				for label := 0; label < 2; label++ {
+				for label := 0; label < 4; label++ {
 					for _, extra := range []int{0, sim.PolSendWS | sim.PolWSStart, sim.PolErrStart} {
 						idx++
 						if idx%sn == si {
 							sim.Judge(t, "C16policies", &NegCase{PolA: only | also | extra, PolB: only | extra, Form: 7, Pos: step, V: label})
 						}
 					}
+				}
+			}
+		}
+	}
+	// a late query for another version at every step of a version 3 exchange, to either party
+	for step := 0; step < 6; step++ {
+		for late := 0; late < 6; late++ {
+			for _, extra := range []int{0, sim.PolErrStart, sim.PolSendWS | sim.PolWSStart} {
+				idx++
+				if idx%sn == si {
+					sim.Judge(t, "C16policies", &NegCase{PolA: 3 | extra, PolB: 3 | extra, Form: 8, Pos: step, V: late})
 				}
 			}
 		}
